@@ -6,7 +6,7 @@ set -u
 patch="$1"; prop="$2"; tier="${3:-quick}"
 VERIF_DIR="$(cd "$(dirname "$0")/.." && pwd)"
 case "$patch" in revert:*) ;; /*) ;; *) patch="$(pwd)/$patch" ;; esac
-wt="$(mktemp -d /tmp/mutwt.XXXXXX)"; rmdir "$wt"
+wt="/tmp/mutwt.$(printf %s "$patch" | sha1sum | cut -c1-10).$$"
 git -C /repo worktree add --detach "$wt" HEAD -f >/dev/null 2>&1 || { echo "worktree failed"; exit 3; }
 cleanup() { git -C /repo worktree remove --force "$wt" >/dev/null 2>&1; rm -rf "$wt"; rm -f "$VERIF_DIR"/out/bin/verif-harness-$(printf %s "$wt" | sha1sum | cut -c1-8); }
 trap cleanup EXIT
